@@ -112,7 +112,7 @@ def m1 (b : Nat) : Nat := (b >>> 1) &&& 0x55
 /-- stage 1 on one byte: four 2-bit sums -/
 def s1 (b : Nat) : Nat := b - m1 b
 /-- stage 2 on one byte: two nibble sums -/
-def s2 (b : Nat) : Nat := ((s1 b >>> 2) &&& 0x33) + ((s1 b >>> 0) &&& 0x33)
+def s2 (b : Nat) : Nat := ((s1 b >>> 2) &&& 0x33) + (s1 b &&& 0x33)
 /-- stages 3 and 4 on one byte: the number of one bits of the byte -/
 def pcb (b : Nat) : Nat := s2 b % 16 + s2 b / 16
 
@@ -199,6 +199,74 @@ theorem n1_lanes (b0 b1 b2 b3 b4 b5 b6 b7 : Nat)
   have f6 := (byte_facts b6 h.2.2.2.2.2.2.1).1
   have f7 := (byte_facts b7 h.2.2.2.2.2.2.2).1
   simp only [m1] at f0 f1 f2 f3 f4 f5 f6 f7
+  omega
+
+/-- stage 2 works lane by lane: the nibble sums stay inside their byte -/
+theorem n2_lanes (b0 b1 b2 b3 b4 b5 b6 b7 : Nat)
+    (h : b0 < 256 ∧ b1 < 256 ∧ b2 < 256 ∧ b3 < 256 ∧ b4 < 256 ∧ b5 < 256 ∧ b6 < 256 ∧ b7 < 256) :
+    n2 (lanes [s1 b0, s1 b1, s1 b2, s1 b3, s1 b4, s1 b5, s1 b6, s1 b7])
+      = lanes [s2 b0, s2 b1, s2 b2, s2 b3, s2 b4, s2 b5, s2 b6, s2 b7] := by
+  have hs : ∀ b, s1 b ≤ b := fun b => Nat.sub_le _ _
+  have hall : ∀ b ∈ [s1 b0, s1 b1, s1 b2, s1 b3, s1 b4, s1 b5, s1 b6, s1 b7], b < 256 :=
+    all8 _ _ _ _ _ _ _ _ ⟨Nat.lt_of_le_of_lt (hs _) h.1, Nat.lt_of_le_of_lt (hs _) h.2.1,
+      Nat.lt_of_le_of_lt (hs _) h.2.2.1, Nat.lt_of_le_of_lt (hs _) h.2.2.2.1, Nat.lt_of_le_of_lt (hs _) h.2.2.2.2.1,
+      Nat.lt_of_le_of_lt (hs _) h.2.2.2.2.2.1, Nat.lt_of_le_of_lt (hs _) h.2.2.2.2.2.2.1,
+      Nat.lt_of_le_of_lt (hs _) h.2.2.2.2.2.2.2⟩
+  have La := mask8 2 0x33 (by decide) _ rfl hall
+  have Lb := mask8 0 0x33 (by decide) _ rfl hall
+  simp only [Nat.shiftRight_zero] at Lb
+  unfold n2
+  rw [e33, La, Lb]
+  simp only [List.map, lanes, s2]
+  have f0 := (byte_facts b0 h.1).2
+  have f1 := (byte_facts b1 h.2.1).2
+  have f2 := (byte_facts b2 h.2.2.1).2
+  have f3 := (byte_facts b3 h.2.2.2.1).2
+  have f4 := (byte_facts b4 h.2.2.2.2.1).2
+  have f5 := (byte_facts b5 h.2.2.2.2.2.1).2
+  have f6 := (byte_facts b6 h.2.2.2.2.2.2.1).2
+  have f7 := (byte_facts b7 h.2.2.2.2.2.2.2).2
+  simp only [s2] at f0 f1 f2 f3 f4 f5 f6 f7
+  omega
+
+/-- stages 3 and 4: each byte ends up holding the sum of its two nibbles; what the unmasked shift drags in from the
+    next lane lands in the high nibble and is masked away -/
+theorem n34_lanes (t0 t1 t2 t3 t4 t5 t6 t7 : Nat)
+    (h0 : t0 % 16 ≤ 4 ∧ t0 / 16 ≤ 4) (h1 : t1 % 16 ≤ 4 ∧ t1 / 16 ≤ 4) (h2 : t2 % 16 ≤ 4 ∧ t2 / 16 ≤ 4)
+    (h3 : t3 % 16 ≤ 4 ∧ t3 / 16 ≤ 4) (h4 : t4 % 16 ≤ 4 ∧ t4 / 16 ≤ 4) (h5 : t5 % 16 ≤ 4 ∧ t5 / 16 ≤ 4)
+    (h6 : t6 % 16 ≤ 4 ∧ t6 / 16 ≤ 4) (h7 : t7 % 16 ≤ 4 ∧ t7 / 16 ≤ 4) :
+    n4 (n3 (lanes [t0, t1, t2, t3, t4, t5, t6, t7]))
+      = lanes [t0 % 16 + t0 / 16, t1 % 16 + t1 / 16, t2 % 16 + t2 / 16, t3 % 16 + t3 / 16,
+               t4 % 16 + t4 / 16, t5 % 16 + t5 / 16, t6 % 16 + t6 / 16, t7 % 16 + t7 / 16] := by
+  have e3 : n3 (lanes [t0, t1, t2, t3, t4, t5, t6, t7])
+      = lanes [t0 % 16 + t0 / 16 + 16 * (t0 / 16 + t1 % 16), t1 % 16 + t1 / 16 + 16 * (t1 / 16 + t2 % 16),
+               t2 % 16 + t2 / 16 + 16 * (t2 / 16 + t3 % 16), t3 % 16 + t3 / 16 + 16 * (t3 / 16 + t4 % 16),
+               t4 % 16 + t4 / 16 + 16 * (t4 / 16 + t5 % 16), t5 % 16 + t5 / 16 + 16 * (t5 / 16 + t6 % 16),
+               t6 % 16 + t6 / 16 + 16 * (t6 / 16 + t7 % 16), t7 % 16 + t7 / 16 + 16 * (t7 / 16)] := by
+    unfold n3
+    rw [Nat.shiftRight_eq_div_pow]
+    simp only [lanes]
+    omega
+  have L := mask8 0 0x0f (by decide) _ rfl (all8
+    (t0 % 16 + t0 / 16 + 16 * (t0 / 16 + t1 % 16)) (t1 % 16 + t1 / 16 + 16 * (t1 / 16 + t2 % 16))
+    (t2 % 16 + t2 / 16 + 16 * (t2 / 16 + t3 % 16)) (t3 % 16 + t3 / 16 + 16 * (t3 / 16 + t4 % 16))
+    (t4 % 16 + t4 / 16 + 16 * (t4 / 16 + t5 % 16)) (t5 % 16 + t5 / 16 + 16 * (t5 / 16 + t6 % 16))
+    (t6 % 16 + t6 / 16 + 16 * (t6 / 16 + t7 % 16)) (t7 % 16 + t7 / 16 + 16 * (t7 / 16)) (by omega))
+  have hand : ∀ u : Nat, u &&& 0x0f = u % 16 := fun u => Nat.and_two_pow_sub_one_eq_mod u 4
+  simp only [Nat.shiftRight_zero, hand] at L
+  rw [e3]
+  unfold n4
+  rw [e0f, L]
+  simp only [List.map, lanes]
+  omega
+
+/-- stage 5: the multiplication accumulates the eight byte counts in the top byte; nothing carries into it -/
+theorem n5_lanes (p0 p1 p2 p3 p4 p5 p6 p7 : Nat)
+    (h : p0 ≤ 8 ∧ p1 ≤ 8 ∧ p2 ≤ 8 ∧ p3 ≤ 8 ∧ p4 ≤ 8 ∧ p5 ≤ 8 ∧ p6 ≤ 8 ∧ p7 ≤ 8) :
+    n5 (lanes [p0, p1, p2, p3, p4, p5, p6, p7]) = p0 + p1 + p2 + p3 + p4 + p5 + p6 + p7 := by
+  unfold n5
+  rw [Nat.shiftRight_eq_div_pow]
+  simp only [lanes]
   omega
 
 end BS
